@@ -36,12 +36,24 @@ What is proved (for all copies, digests, truncation points, histories):
 admitted) as the hypothesis on each handshake; `C01_handshake_step_progress` derives it from the byte
 budget only for the *first* member in staleness order, so that several members competing for one
 datagram all get their turn (and do not in the KF-3 situation) is argued in DESIGN.md and exercised
-by the `cluster` suite's fair suffix and its monitors, not mechanised. Sweeps over a connected but
-not complete graph (information relayed by third parties) are not mechanised either.
+by the `cluster` suite's fair suffix and its monitors, not mechanised.
+
+* `C01_reply_advances_receiver`: one reply seen on the whole receiver (`ClusterState::apply_delta`
+  of what the real sender computed): nothing aborts, no copy of any member goes down, the copy of the
+  first member in staleness order strictly advances — the potential summed over all members strictly
+  increases with every productive reply, so competing members cannot undo each other's progress.
+
+* `C01_connected_sweep_progress`, `C01_connected_converges`: the same for sweeps whose handshakes only
+  connect every holder to the owner through other holders (`ConnectedFromOwner`: relay by third
+  parties): a holder that already has the owner's max version refuses every later delta
+  (`converged_rejects`, by C03 nothing is ahead of the owner) and so stays a valid source for its
+  neighbours; some edge always leads from the converged part to a lagging holder.
 -/
 import ChitchatModel.Props.C14
 import ChitchatModel.Props.C03
 import ChitchatModel.Lemmas.Progress
+import ChitchatModel.Lemmas.Heartbeat
+import ChitchatModel.Lemmas.EmitWF
 namespace Chitchat
 open NodeState ClusterState
 
@@ -692,6 +704,404 @@ example : MeshSweeps [exσ1, exσ2] := by
   subst this
   exact ⟨exσ1, exσ2, QRun.refl _, hs, QRun.refl _⟩
 
+
+/-! ### Sweeps over a connected graph: information relayed by third parties -/
+
+/-- the copy that answers in a handshake: the owner's (`none`) or holder `i`'s -/
+def XSys.copyOf (σ : XSys) : Option Nat → Option NodeState
+  | none => some σ.owner
+  | some i => σ.replicas[i]?
+
+/-- One loss-free handshake in which `src` (the owner or a holder) answers the digest entry of holder
+`j`'s copy and `j` applies the answer; nothing is offered when `j` is not behind `src`. -/
+def Shake (src : Option Nat) (j : Nat) (σ σ' : XSys) : Prop :=
+  ∃ s r, σ.copyOf src = some s ∧ σ.replicas[j]? = some r ∧
+    ((¬ r.maxVersion < s.maxVersion ∧ σ' = σ) ∨
+     (r.maxVersion < s.maxVersion ∧ ∃ n now r' st evs, 1 ≤ n ∧
+        r.applyDelta (senderNodeDelta s (senderFrom s r.lastGc r.maxVersion) n true) now = .ok (r', st, evs) ∧
+        σ' = { σ with
+          deltas := σ.deltas ++ [(senderNodeDelta s (senderFrom s r.lastGc r.maxVersion) n true,
+                                  max s.lastGc s.maxVersion)],
+          replicas := σ.replicas.set j r' }))
+
+theorem shake_qrun (src : Option Nat) (j : Nat) (σ σ' : XSys) (h : Shake src j σ σ') : QRun σ σ' := by
+  obtain ⟨s, r, hs, hr, h | ⟨hlag, n, now, r', st, evs, hn, happ, rfl⟩⟩ := h
+  · rw [h.2]; exact QRun.refl _
+  · let f := senderFrom s r.lastGc r.maxVersion
+    let σ₁ : XSys := { σ with deltas := σ.deltas ++ [(senderNodeDelta s f n true, max s.lastGc s.maxVersion)] }
+    have s1 : Quiet σ σ₁ := by
+      cases src with
+      | none =>
+        simp only [XSys.copyOf, Option.some.injEq] at hs
+        subst hs
+        exact ⟨XStep.offerOwner σ f n true, rfl, rfl⟩
+      | some i => exact ⟨XStep.offerReplica σ i s hs f n true, rfl, rfl⟩
+    have s2 : XStep false σ₁ { σ₁ with replicas := σ₁.replicas.set j r' } :=
+      XStep.deliver σ₁ j r hr (senderNodeDelta s f n true, max s.lastGc s.maxVersion)
+        (by simp [σ₁]) now r' st evs happ (by intro h; cases h)
+    exact QRun.step σ σ₁ _ s1 (QRun.step σ₁ _ _ ⟨s2, rfl, by simp [σ₁]⟩ (QRun.refl _))
+
+theorem shake_progress (src : Option Nat) (j : Nat) (σ σ' : XSys) (h : Shake src j σ σ') (s r : NodeState)
+    (hs : σ.copyOf src = some s) (hr : σ.replicas[j]? = some r) (hlag : r.maxVersion < s.maxVersion) :
+    ∃ r', σ'.replicas[j]? = some r' ∧ frontierLt r.frontier r'.frontier := by
+  obtain ⟨s0, r0, hs0, hr0, h | ⟨_, n, now, r', st, evs, hn, happ, rfl⟩⟩ := h
+  · rw [hr] at hr0; cases hr0; rw [hs] at hs0; cases hs0; exact absurd hlag h.1
+  · rw [hr] at hr0; cases hr0; rw [hs] at hs0; cases hs0
+    obtain ⟨r'', st', evs', happ', hlt⟩ := C14_nonempty_progress s r n now hlag hn
+    rw [happ] at happ'
+    cases happ'
+    have hj : j < σ.replicas.length := lt_of_getElemOpt_some hr
+    exact ⟨r', by simp [List.getElem?_set_self hj], hlt⟩
+
+/-- a copy that has the owner's max version refuses every delta about the member -/
+theorem converged_rejects (V : Nat) (r : NodeState) (nd : NodeDelta) (hr : r.maxVersion = V)
+    (h1 : nd.maxVersion ≤ V) (h2 : nd.lastGc ≤ V) : r.checkDeltaStatus nd = .reject := by
+  unfold checkDeltaStatus
+  split
+  · rfl
+  · split
+    · rename_i h; exfalso; apply h; right; omega
+    · split
+      · omega
+      · rfl
+
+/-- a quiet step keeps a converged copy converged -/
+theorem quiet_keeps_converged (σ σ' : XSys) (hreach : XReach false σ) (h : Quiet σ σ') (i : Nat) (r : NodeState)
+    (hri : σ.replicas[i]? = some r) (hc : r.maxVersion = σ.H.length) :
+    ∃ r', σ'.replicas[i]? = some r' ∧ r'.maxVersion = σ.H.length := by
+  obtain ⟨hstep, hH, hlen⟩ := h
+  have hinv := xinv_reach false false (by intro h; cases h) σ hreach
+  cases hstep with
+  | write w now => simp at hH
+  | gcOwner now grace => exact ⟨r, hri, hc⟩
+  | gcReplica k now grace rk hrk =>
+    by_cases hik : k = i
+    · subst hik
+      rw [hri] at hrk; cases hrk
+      refine ⟨r.gcKeys now grace, ?_, ?_⟩
+      · simp [List.getElem?_set_self (lt_of_getElemOpt_some hri)]
+      · rw [(C04_gc_monotone r now grace).2]; exact hc
+    · exact ⟨r, by simp [List.getElem?_set_ne hik, hri], hc⟩
+  | join hb => simp at hlen
+  | remove k =>
+    simp only at hlen
+    have : σ.replicas.length ≤ k := by
+      rcases Nat.lt_or_ge k σ.replicas.length with hlt | hge
+      · rw [List.length_eraseIdx_of_lt hlt] at hlen
+        omega
+      · exact hge
+    exact ⟨r, by simp only [List.eraseIdx_of_length_le this]; exact hri, hc⟩
+  | offerOwner f n b => exact ⟨r, hri, hc⟩
+  | offerReplica k s hs f n b => exact ⟨r, hri, hc⟩
+  | deliver k rk hrk d hd now r' st evs happ hguard =>
+    by_cases hik : k = i
+    · subst hik
+      rw [hri] at hrk; cases hrk
+      have hna := (C03_deltas_not_ahead σ hreach d hd).1
+      unfold NodeDelta.NotAhead at hna
+      rw [C03_owner_is_frontier σ hreach] at hna
+      have hrej := converged_rejects σ.H.length r d.1 hc hna.1 hna.2
+      have hwf : d.1.KvsLeMax := (hinv.deltaWF d hd).1.leMax
+      obtain ⟨s', evs', h, _, hsame, _⟩ := C04_frontier_monotone r d.1 now hwf
+      rw [happ] at h
+      cases h
+      rw [hsame hrej]
+      exact ⟨r, by simp [List.getElem?_set_self (lt_of_getElemOpt_some hri)], hc⟩
+    · exact ⟨r, by simp [List.getElem?_set_ne hik, hri], hc⟩
+  | deliverToOwner d hd now o' st evs happ => exact ⟨r, hri, hc⟩
+
+theorem qrun_keeps_converged {a b : XSys} (h : QRun a b) (ha : XReach false a) (i : Nat) (r : NodeState)
+    (hri : a.replicas[i]? = some r) (hc : r.maxVersion = a.H.length) :
+    ∃ r', b.replicas[i]? = some r' ∧ r'.maxVersion = a.H.length := by
+  induction h generalizing r with
+  | refl => exact ⟨r, hri, hc⟩
+  | step σ σ' σ'' hq _ ih =>
+    obtain ⟨r1, h1, h2⟩ := quiet_keeps_converged σ σ' ha hq i r hri hc
+    have := ih (XReach.step σ σ' ha hq.1) r1 h1 (by rw [hq.2.1]; exact h2)
+    rw [hq.2.1] at this
+    exact this
+
+/-- The edges (who answers whom) used by the sweeps reach every holder from the owner: whatever set
+`S` of holders is not yet everybody, some edge leads from the owner or from a holder in `S` to a holder
+outside `S`. (For the complete graph: the edges `(none, j)`.) -/
+def ConnectedFromOwner (n : Nat) (E : List (Option Nat × Nat)) : Prop :=
+  ∀ S : Nat → Bool, (∃ j, j < n ∧ S j = false) →
+    ∃ e ∈ E, e.2 < n ∧ S e.2 = false ∧ (e.1 = none ∨ ∃ i, e.1 = some i ∧ i < n ∧ S i = true)
+
+/-- a sweep: a quiet run in which every edge of `E` carries one loss-free handshake, in any order,
+interleaved with any other gossip -/
+def GraphSweep (E : List (Option Nat × Nat)) (σ σ' : XSys) : Prop :=
+  ∀ e ∈ E, ∃ σ₁ σ₂, QRun σ σ₁ ∧ Shake e.1 e.2 σ₁ σ₂ ∧ QRun σ₂ σ'
+
+/-- **C01 (a sweep over a connected graph is fair).** The holders need not talk to the owner: if the
+handshakes of a sweep connect every holder to the owner, possibly through other holders, then from any
+reachable non-converged state the sweep strictly raises the frontier of some copy and lowers none. -/
+theorem C01_connected_sweep_progress (E : List (Option Nat × Nat)) (σ σ' : XSys) (hreach : XReach false σ)
+    (hconn : ConnectedFromOwner σ.replicas.length E) (hs : GraphSweep E σ σ')
+    (hnc : ¬ ConvergedAt σ.H.length σ.fronts) : StepLt σ.fronts σ'.fronts := by
+  let S : Nat → Bool := fun i => match σ.replicas[i]? with
+    | some r => decide (r.maxVersion = σ.H.length)
+    | none => false
+  have hex : ∃ (j : Nat) (r : NodeState), σ.replicas[j]? = some r ∧ r.maxVersion ≠ σ.H.length := by
+    apply Classical.byContradiction
+    intro hno
+    apply hnc
+    intro f hf
+    simp only [XSys.fronts, List.mem_map] at hf
+    obtain ⟨r, hr, rfl⟩ := hf
+    obtain ⟨j, hj, hjr⟩ := List.getElem_of_mem hr
+    apply Classical.byContradiction
+    intro hneq
+    exact hno ⟨j, r, by rw [List.getElem?_eq_getElem hj, hjr], hneq⟩
+  obtain ⟨j0, r0, hr0, hr0ne⟩ := hex
+  obtain ⟨e, heE, hjn, hSj, hsrc⟩ := hconn S ⟨j0, lt_of_getElemOpt_some hr0, by simp [S, hr0, hr0ne]⟩
+  obtain ⟨src, j⟩ := e
+  simp only at hjn hSj hsrc
+  have hr : σ.replicas[j]? = some σ.replicas[j] := List.getElem?_eq_getElem hjn
+  have hrne : σ.replicas[j].maxVersion ≠ σ.H.length := by
+    intro hc; simp [S, hr, hc] at hSj
+  obtain ⟨σ₁, σ₂, hq1, hsh, hq2⟩ := hs (src, j) heE
+  simp only at hsh
+  have hreach1 := hq1.reach hreach
+  have hreach2 := (shake_qrun src j σ₁ σ₂ hsh).reach hreach1
+  have hm1 := qrun_mono hq1 hreach
+  have hm12 := qrun_mono (shake_qrun src j σ₁ σ₂ hsh) hreach1
+  have hm2 := qrun_mono hq2 hreach2
+  have hall : StepLe σ.fronts σ'.fronts := stepLe_trans hm1 (stepLe_trans hm12 hm2)
+  apply stepLt_of _ _ hall
+  have hl1 := hq1.same.2
+  have hl2 := (shake_qrun src j σ₁ σ₂ hsh).same.2
+  have hl3 := hq2.same.2
+  have hj1 : j < σ₁.replicas.length := by omega
+  have hj2 : j < σ₂.replicas.length := by omega
+  have hj3 : j < σ'.replicas.length := by omega
+  have hH1 : σ₁.H = σ.H := hq1.same.1
+  have e0 := getElemOpt_fronts σ j _ hr
+  have e1 := getElemOpt_fronts σ₁ j σ₁.replicas[j] (List.getElem?_eq_getElem hj1)
+  have e2 := getElemOpt_fronts σ₂ j σ₂.replicas[j] (List.getElem?_eq_getElem hj2)
+  have e3 := getElemOpt_fronts σ' j σ'.replicas[j] (List.getElem?_eq_getElem hj3)
+  have le01 := (stepLe_iff _ _).1 hm1 |>.2 j _ _ e0 e1
+  have le12 := (stepLe_iff _ _).1 hm12 |>.2 j _ _ e1 e2
+  have le23 := (stepLe_iff _ _).1 hm2 |>.2 j _ _ e2 e3
+  refine ⟨j, _, _, e0, e3, ?_⟩
+  -- the answering copy has the owner's max version when the handshake comes
+  have hsrc1 : ∃ s, σ₁.copyOf src = some s ∧ s.maxVersion = σ.H.length := by
+    rcases hsrc with rfl | ⟨i, rfl, hi, hSi⟩
+    · exact ⟨σ₁.owner, rfl, by rw [C03_owner_is_frontier σ₁ hreach1, hH1]⟩
+    · have hri : σ.replicas[i]? = some σ.replicas[i] := List.getElem?_eq_getElem hi
+      have hci : σ.replicas[i].maxVersion = σ.H.length := by
+        simp only [S, hri] at hSi
+        exact of_decide_eq_true hSi
+      obtain ⟨r', h1, h2⟩ := qrun_keeps_converged hq1 hreach i _ hri hci
+      exact ⟨r', h1, h2⟩
+  obtain ⟨s, hs1, hsV⟩ := hsrc1
+  have hbound0 : σ.replicas[j].maxVersion ≤ σ.H.length := by
+    have := (C03_integrity σ hreach _ (List.getElem_mem hjn)).2.1
+    rw [C03_owner_is_frontier σ hreach] at this; exact this
+  have hbound1 : σ₁.replicas[j].maxVersion ≤ σ.H.length := by
+    have := (C03_integrity σ₁ hreach1 σ₁.replicas[j] (List.getElem_mem hj1)).2.1
+    rw [C03_owner_is_frontier σ₁ hreach1, hH1] at this; exact this
+  by_cases hlag : σ₁.replicas[j].maxVersion < s.maxVersion
+  · obtain ⟨r', hr', hlt⟩ := shake_progress src j σ₁ σ₂ hsh s σ₁.replicas[j] hs1 (List.getElem?_eq_getElem hj1) hlag
+    rw [List.getElem?_eq_getElem hj2] at hr'
+    cases hr'
+    exact frontierLt_of_le_lt le01 (frontierLt_of_lt_le hlt le23)
+  · have hmax1 : σ₁.replicas[j].maxVersion = σ.H.length := by omega
+    have : frontierLt σ.replicas[j].frontier σ₁.replicas[j].frontier := by
+      unfold frontierLe frontierLt NodeState.frontier at *
+      simp only at *
+      omega
+    exact frontierLt_of_lt_le this (frontierLe_trans le12 le23)
+
+/-- sweep boundaries of a schedule whose sweeps all cover the edges `E` -/
+def GraphSweeps (E : List (Option Nat × Nat)) : List XSys → Prop
+  | [] => True
+  | [_] => True
+  | a :: b :: t => GraphSweep E a b ∧ QRun a b ∧ GraphSweeps E (b :: t)
+
+theorem graphSweeps_facts (E : List (Option Nat × Nat)) (σ : XSys) (hreach : XReach false σ)
+    (hconn : ConnectedFromOwner σ.replicas.length E) :
+    ∀ (t : List XSys), GraphSweeps E (σ :: t) →
+      (∀ s ∈ σ :: t, s.fronts.length = σ.replicas.length) ∧
+      (∀ s ∈ σ :: t, AllBounded σ.H.length s.fronts) ∧
+      FairSweeps σ.H.length ((σ :: t).map XSys.fronts) := by
+  intro t
+  induction t generalizing σ with
+  | nil =>
+    intro _
+    refine ⟨?_, ?_, trivial⟩
+    · intro s hs; simp at hs; subst hs; simp [XSys.fronts]
+    · intro s hs; simp at hs; subst hs
+      intro f hf
+      simp only [XSys.fronts, List.mem_map] at hf
+      obtain ⟨r, hr, rfl⟩ := hf
+      have := C03_integrity s hreach r hr
+      rw [C03_owner_is_frontier s hreach] at this
+      exact ⟨this.2.2, this.2.1⟩
+  | cons b t ih =>
+    intro hm
+    obtain ⟨hsweep, hrun, hrest⟩ := hm
+    have hreachb := hrun.reach hreach
+    have hsame := hrun.same
+    obtain ⟨i1, i2, i4⟩ := ih b hreachb (by rw [hsame.2]; exact hconn) hrest
+    rw [hsame.1, hsame.2] at *
+    refine ⟨?_, ?_, ?_⟩
+    · intro s hs
+      rcases List.mem_cons.1 hs with rfl | hs
+      · simp [XSys.fronts]
+      · exact i1 s hs
+    · intro s hs
+      rcases List.mem_cons.1 hs with rfl | hs
+      · intro f hf
+        simp only [XSys.fronts, List.mem_map] at hf
+        obtain ⟨r, hr, rfl⟩ := hf
+        have := C03_integrity s hreach r hr
+        rw [C03_owner_is_frontier s hreach] at this
+        exact ⟨this.2.2, this.2.1⟩
+      · exact i2 s hs
+    · refine ⟨?_, i4⟩
+      intro hnc
+      exact C01_connected_sweep_progress E σ b hreach hconn hsweep hnc
+
+/-- **C01 (convergence under sweeps over any connected graph).** As `C01_full_mesh_converges`, but the
+sweeps only need handshakes along edges that connect every holder to the owner, directly or through
+other holders (relay): among the first `n · ((V+1)² − 1) + 1` sweep boundaries one is converged. -/
+theorem C01_connected_converges (E : List (Option Nat × Nat)) (σ : XSys) (t : List XSys)
+    (hreach : XReach false σ) (hconn : ConnectedFromOwner σ.replicas.length E)
+    (hm : GraphSweeps E (σ :: t))
+    (hn : ∀ s ∈ (σ :: t).dropLast, ¬ ConvergedAt σ.H.length s.fronts) :
+    (σ :: t).length ≤ σ.replicas.length * ((σ.H.length + 1) * (σ.H.length + 1) - 1) + 1 := by
+  obtain ⟨h1, h2, h4⟩ := graphSweeps_facts E σ hreach hconn t hm
+  have := C01_converges_within_bounded_sweeps σ.H.length σ.replicas.length ((σ :: t).map XSys.fronts)
+    (by intro c hc; obtain ⟨s, hs, rfl⟩ := List.mem_map.1 hc; exact h1 s hs)
+    (by intro c hc; obtain ⟨s, hs, rfl⟩ := List.mem_map.1 hc; exact h2 s hs)
+    h4
+    (by
+      intro c hc
+      rw [← List.map_dropLast] at hc
+      obtain ⟨s, hs, rfl⟩ := List.mem_map.1 hc
+      exact hn s hs)
+  simpa using this
+
+/-- non-vacuity: a chain owner → holder 0 → holder 1 is connected from the owner -/
+example : ConnectedFromOwner 2 [(none, 0), (some 0, 1)] := by
+  intro S hS
+  cases h0 : S 0
+  · exact ⟨(none, 0), by simp, by decide, h0, Or.inl rfl⟩
+  · cases h1 : S 1
+    · exact ⟨(some 0, 1), by simp, by decide, h1, Or.inr ⟨0, rfl, by decide, h0⟩⟩
+    · obtain ⟨j, hj, hSj⟩ := hS
+      have : j = 0 ∨ j = 1 := by omega
+      rcases this with rfl | rfl
+      · rw [h0] at hSj; cases hSj
+      · rw [h1] at hSj; cases hSj
+
 end Mesh
+
+/-! ### One reply seen on the whole receiver -/
+
+
+/-- What `ClusterState::apply_delta` does to a receiver, member by member, for node deltas about
+pairwise distinct members: it does not abort, no copy's frontier goes down, members without a node
+delta (or without a copy) are untouched, and the copy of a member with a node delta is exactly
+`NodeState.applyDelta` of that node delta. -/
+theorem cluster_applyDelta_spec (now : Nat) : ∀ (nds : List (Id × NodeDelta)) (rc : ClusterState),
+    (∀ p ∈ nds, p.2.KvsLeMax) → (nds.map (·.1)).Nodup →
+    ∃ rc' reset evs, ClusterState.applyDelta now rc nds = .ok (rc', reset, evs) ∧
+      (∀ i, rc.nodeState i = none → rc'.nodeState i = none) ∧
+      (∀ i s, rc.nodeState i = some s → ∃ s', rc'.nodeState i = some s' ∧ frontierLe s.frontier s'.frontier) ∧
+      (∀ i, i ∉ nds.map (·.1) → rc'.nodeState i = rc.nodeState i) ∧
+      (∀ p ∈ nds, ∀ r, rc.nodeState p.1 = some r →
+          ∃ r' st es, r.applyDelta p.2 now = .ok (r', st, es) ∧ rc'.nodeState p.1 = some r') := by
+  intro nds
+  induction nds with
+  | nil =>
+    intro rc _ _
+    refine ⟨rc, false, [], rfl, fun _ h => h, ?_, fun _ _ => rfl, ?_⟩
+    · intro i s hs; exact ⟨s, hs, frontierLe_refl _⟩
+    · intro p hp; cases hp
+  | cons q rest ih =>
+    intro rc hwf hnd
+    obtain ⟨i, nd⟩ := q
+    have hrest : ∀ p ∈ rest, p.2.KvsLeMax := fun p hp => hwf p (List.mem_cons_of_mem _ hp)
+    simp only [List.map_cons, List.nodup_cons] at hnd
+    obtain ⟨hi, hndr⟩ := hnd
+    simp only [ClusterState.applyDelta]
+    cases hn : rc.nodeState i with
+    | none =>
+      obtain ⟨rc', reset, evs, happ, a1, a2, a3, a4⟩ := ih rc hrest hndr
+      refine ⟨rc', reset, evs, happ, a1, a2, ?_, ?_⟩
+      · intro j hj
+        apply a3 j
+        intro hjr; apply hj; simp only [List.map_cons, List.mem_cons]; exact Or.inr hjr
+      · intro p hp r hr
+        rcases List.mem_cons.1 hp with rfl | hp
+        · simp only at hr; rw [hn] at hr; cases hr
+        · exact a4 p hp r hr
+    | some s =>
+      simp only
+      obtain ⟨s', es, h, hle, _⟩ := C04_frontier_monotone s nd now (hwf (i, nd) List.mem_cons_self)
+      rw [h]
+      simp only [hle, if_true]
+      obtain ⟨rc', reset, evs, happ, a1, a2, a3, a4⟩ := ih (rc.setNode i s') hrest hndr
+      rw [happ]
+      refine ⟨rc', _, _, rfl, ?_, ?_, ?_, ?_⟩
+      · intro j hj
+        have hji : j ≠ i := by intro e; subst e; rw [hn] at hj; cases hj
+        exact a1 j (by rw [nodeState_setNode_ne' rc i j s' hji]; exact hj)
+      · intro j sj hj
+        by_cases hji : j = i
+        · subst hji
+          rw [hn] at hj; cases hj
+          obtain ⟨s2, h2, hle2⟩ := a2 j s' (nodeState_setNode_self' rc j s')
+          exact ⟨s2, h2, frontierLe_trans hle hle2⟩
+        · exact a2 j sj (by rw [nodeState_setNode_ne' rc i j s' hji]; exact hj)
+      · intro j hj
+        simp only [List.map_cons, List.mem_cons, not_or] at hj
+        rw [a3 j hj.2, nodeState_setNode_ne' rc i j s' hj.1]
+      · intro p hp r hr
+        rcases List.mem_cons.1 hp with rfl | hp
+        · simp only at hr ⊢
+          rw [hn] at hr; cases hr
+          refine ⟨s', _, es, h, ?_⟩
+          rw [a3 i hi]; exact nodeState_setNode_self' rc i s'
+        · have hpi : p.1 ≠ i := by
+            intro e; apply hi; rw [← e]; exact List.mem_map_of_mem hp
+          exact a4 p hp r (by rw [nodeState_setNode_ne' rc i p.1 s' hpi]; exact hr)
+
+/-- **C01 (one reply, the whole receiver).** The sender computes its reply to the receiver's digest
+with the real sender (staleness order, byte budget, block stream); the receiver — any cluster state
+whose copy of the first stale member is what the digest said — applies it with
+`ClusterState::apply_delta`: nothing aborts, no copy of any member goes down, and the copy of the first
+member in staleness order strictly advances. Hence the potential summed over *all* the members held
+by the receiver strictly increases with every such reply: members competing for the same datagram
+cannot undo each other's progress, and the number of productive replies is bounded by the total
+potential (`C01_system_progress_bounded`). -/
+theorem C01_reply_advances_receiver (C : Compressor) (cs : ClusterState) (hcs : WFCluster cs)
+    (digest : Digest) (mtu : Nat) (h100 : 100 ≤ mtu) (hmax : mtu ≤ 65539) (sched order : List Id)
+    (sn : StaleNode) (rest : List StaleNode)
+    (hs : sortStale order (staleNodes cs digest sched) = sn :: rest)
+    (hwf : WFOp (.node sn.id sn.state.lastGc sn.fromExcl))
+    (hh : opLen (.node sn.id sn.state.lastGc sn.fromExcl) ≤ 16384)
+    (hfit : opLen (.node sn.id sn.state.lastGc sn.fromExcl) + firstItemLen sn + 7 ≤ mtu)
+    (rc : ClusterState) (r : NodeState) (hrc : rc.nodeState sn.id = some r)
+    (hr : digestEntry sn.id digest = (r.lastGc, r.maxVersion)) (now : Nat) :
+    ∃ delta rc' reset evs, computeDelta C cs digest mtu sched order = .ok delta ∧
+      ClusterState.applyDelta now rc delta.nodeDeltas = .ok (rc', reset, evs) ∧
+      (∀ i s, rc.nodeState i = some s → ∃ s', rc'.nodeState i = some s' ∧ frontierLe s.frontier s'.frontier) ∧
+      (∀ i, rc.nodeState i = none → rc'.nodeState i = none) ∧
+      ∃ r', rc'.nodeState sn.id = some r' ∧ frontierLt r.frontier r'.frontier := by
+  obtain ⟨delta, nd, hd, hmem, r1, st, es, happ1, hlt⟩ :=
+    C01_handshake_step_progress C cs hcs digest mtu h100 hmax sched order sn rest hs hwf hh hfit r hr now
+  obtain ⟨hnodup, hwfd⟩ := computeDelta_wf C cs digest mtu sched order delta hd
+  obtain ⟨rc', reset, evs, happ, a1, a2, _, a4⟩ :=
+    cluster_applyDelta_spec now delta.nodeDeltas rc (fun p hp => (hwfd p hp).leMax) hnodup
+  refine ⟨delta, rc', reset, evs, hd, happ, a2, a1, ?_⟩
+  obtain ⟨r', st', es', happ', hr'⟩ := a4 (sn.id, nd) hmem r hrc
+  simp only at happ' hr'
+  rw [happ1] at happ'
+  cases happ'
+  exact ⟨r1, hr', hlt⟩
+
 
 end Chitchat
